@@ -42,6 +42,18 @@ def _gen_motif(r, w, style):
 			i = r.randint(0, 3)
 			col = [0.0] * 4
 			col[i] = 1.0
+		elif s == "counts":
+			# a count matrix: non-negative integers, columns with different totals
+			col = [float(r.choice([0, 0, 1, 2, 3, 5, 9, 14])) for _ in range(4)]
+			if not any(col):
+				col[r.randint(0, 3)] = float(r.randint(1, 9))
+		elif s == "rounded":
+			# probabilities as printed with two decimals: columns sum to 1 +- 0.02
+			g = [r._r.gammavariate(r.choice([0.5, 2.0]), 1.0) + 1e-12 for _ in range(4)]
+			t = sum(g)
+			col = [round(x / t, 2) for x in g]
+			if not any(col):
+				col = [0.25] * 4
 		else:
 			col = [0.25] * 4
 		cols.append(col)
@@ -241,6 +253,14 @@ class C13(runner.Check):
 					if len(t[0]) <= 12:
 						targets.append(t)
 				nT = len(targets)
+		c_ = S("counts")
+		if not onehot_pool and not bigdb and c_.chance(0.25):
+			# some queries are count matrices (entries > 1) and some are rounded
+			# probability matrices (columns not summing to exactly 1)
+			idx = [j for j in range(len(pool)) if j != redundant]
+			for style in ("counts", "rounded"):
+				for j in c_.sample(idx, min(len(idx), c_.randint(1, 2))):
+					pool[j] = _gen_motif(c_, len(pool[j][0]), style)
 		nb = r.choice([10, 20, 50, 100])
 		cfg = {"n_score_bins": nb, "n_median_bins": r.choice([50, 1000]),
 			"n_target_bins": r.choice([None, 10, 100]),
@@ -342,6 +362,8 @@ class C13(runner.Check):
 		Ts, pool = self._arrays(case)
 		nT = len(Ts)
 		log.log("world", case["targets"], case["pool"], case["cfg"])
+		if any(float(q.max()) > 1.0 for q in pool):
+			out.bump("world.count_matrix_queries")
 		refs, bad = {}, set()
 		with numpy.errstate(all="ignore"):
 			for call in case["calls"]:
@@ -398,9 +420,14 @@ class C13(runner.Check):
 					rr = _random.Random(call["qdtype_seed"])
 					for i_, q in enumerate(qs):
 						a = pool[q]
-						if numpy.all((a == 0) | (a == 1)) and rr.random() < 0.7:
-							Qarg[i_] = a.astype(rr.choice(["int8", "bool", "float32"]))
-							out.bump("probe.query_dtype_mixed")
+						if numpy.all((a == 0) | (a == 1)):
+							if rr.random() < 0.7:
+								Qarg[i_] = a.astype(rr.choice(["int8", "bool", "float32"]))
+								out.bump("probe.query_dtype_mixed")
+						elif numpy.all(a == numpy.round(a)) and rr.random() < 0.7:
+							# a count matrix handed over as integers
+							Qarg[i_] = a.astype(rr.choice(["int64", "int32", "float32"]))
+							out.bump("probe.query_count_matrix_integer_dtype")
 				Targ = [self._lay(t, lay) for t in Ts]
 				fn = lambda: self.tt.tomtom(Qarg, Targ, n_nearest=nn, n_jobs=n_jobs, **kw)
 				out.bump("layout." + lay)
